@@ -212,6 +212,12 @@ func (c *LRUCache) Set(key string, value interface{}, ttl time.Duration) error {
 		c.currentSize -= oldEntry.Size
 		c.currentSize += size
 		elem.Value = entry
+		// The new value may be larger than the one it replaces: evict from the cold end until
+		// the cache is within its byte budget again. The updated entry sits at the front and is
+		// not evicted here; on its own it fits (checked above).
+		for c.maxSize > 0 && c.currentSize > c.maxSize && c.evictList.Len() > 1 {
+			c.evictOldest()
+		}
 		atomic.AddUint64(&c.stats.Sets, 1)
 		return nil
 	}
@@ -271,6 +277,10 @@ func (c *LRUCache) SetWithTags(key string, value interface{}, ttl time.Duration,
 		c.currentSize -= oldEntry.Size
 		c.currentSize += size
 		elem.Value = entry
+		// See Set: an in-place update must not leave the cache above its byte budget.
+		for c.maxSize > 0 && c.currentSize > c.maxSize && c.evictList.Len() > 1 {
+			c.evictOldest()
+		}
 		return nil
 	}
 
